@@ -712,9 +712,20 @@ func cmdCheck(args []string) int {
 			}
 		}
 	}
+	errSeen := map[string]int{}
 	for i, er := range res.errors {
 		fmt.Println("  ERROR", er)
-		viols = append(viols, &violation{Obligation: fmt.Sprintf("engine.error.%d", i), Kind: "engine", Statement: "every contracted function can be symbolically executed and every contract binds", Status: "error", Output: er})
+		// name the obligation after the function it concerns: "<pkg>.<Func>#verifiable" (the message starts with
+		// the function's name); anything else keeps the generic name
+		name := fmt.Sprintf("engine.error.%d", i)
+		if j := strings.Index(er, ": "); j > 0 && !strings.ContainsAny(er[:j], " \t") && strings.Contains(er[:j], ".") {
+			name = er[:j] + "#verifiable"
+			errSeen[name]++
+			if n := errSeen[name]; n > 1 {
+				name = fmt.Sprintf("%s/%d", name, n)
+			}
+		}
+		viols = append(viols, &violation{Obligation: name, Kind: "engine", Statement: "every contracted function can be symbolically executed against its contract, and every contract binds", Status: "error", Output: er})
 	}
 	for _, b := range res.bounded {
 		if b.Error != "" {
